@@ -13,7 +13,7 @@ shutil.copy(f"{src}/demo_{k}.rs", f"{dst}/demo.rs")
 meta = json.load(open(f"{src}/meta_{k}.json"))
 log = ""
 for c in checks.split(","):
-    p = f"/tmp/seedrun/last_{c}.log"
+    p = os.environ.get("SEEDRUN", "/tmp/seedrun") + f"/last_{c}.log"
     if os.path.exists(p):
         lines = [l.rstrip()[:300] for l in open(p) if re.match(r"\[C|VIOLATION|KNOWN|  broken\[|  fails\[", l)]
         log += f"--- ./check {c} quick (patch applied)\n" + "\n".join(lines[:14]) + "\n"
